@@ -3,9 +3,12 @@ EXTENDS L4ProxyProto, Json
 CONSTANT Tier
 RecvCases == { c \in [kind : {"recv"}, ver : {1, 2}, fam : {"TCP4", "TCP6", "UNKNOWN", "LOCAL"}, addr : {1, 2, 3},
                       peer : {"any", "in1", "out1", "inSpecific", "inBroad", "out2", "in6", "out6"}, split : {"whole", "hdr", "mid", "byte"},
-                      pre : {"none", "part", "hdr", "hdr1", "all"}, payload : {0, 1, 5000, 20000}] :
+                      pre : {"none", "part", "hdr", "hdr1", "all"}, payload : {0, 1, 5000, 20000}, layout : {"nested", "flat"}] :
                  /\ (c.fam = "UNKNOWN" => c.ver = 1) /\ (c.fam = "LOCAL" => c.ver = 2)
-                 /\ (c.fam \in {"UNKNOWN", "LOCAL"} => c.addr = 1) }
+                 /\ (c.fam \in {"UNKNOWN", "LOCAL"} => c.addr = 1)
+                 \* flat: PROXY route, address route and a route that needs more data at ONE level (the address route
+                 \* is first evaluated on the socket's addresses); only where the header is honoured and declares addresses
+                 /\ (c.layout = "flat" => (c.pre = "none" /\ c.fam \in {"TCP4", "TCP6"} /\ c.peer \notin {"out1", "out2", "out6"} /\ c.payload > 0)) }
 SendCases == { s \in [kind : {"send"}, ver : {"v1", "v2"}, via : {"direct", "received"}, fam : {"TCP4", "TCP6"}, addr : {1, 2, 3},
                       peers : {1, 2}, payload : {0, 1, 5000}, pre : {"none", "part"}] :
                  s.pre = "part" => s.payload >= 3 }
